@@ -26,12 +26,56 @@ class Choice:
 class AObj:
     """abstract object: `attrs` maps attribute names to values, method names to callables(*args)"""
 
+    cls = None     # ClassInfo: methods / class constants the attribute table does not have are taken from the repo class
+
     def __init__(self, name, **attrs):
         self.name = name
         self.attrs = attrs
 
     def __repr__(self):
         return "<%s>" % self.name
+
+
+class _Super:
+    """`super()` inside a method of class `after` on object `obj`"""
+
+    def __init__(self, obj, after):
+        self.obj, self.after = obj, after
+
+
+_PURE_STR = {"lower", "upper", "strip", "lstrip", "rstrip", "isalpha", "isdigit", "isupper", "islower", "startswith",
+             "endswith", "capitalize", "title", "replace", "format", "join", "split", "isidentifier"}
+_DEPTH = [0]
+
+
+def call_method(obj, cls, name, args, hooks, start_after=None):
+    """run method `name` of repo class `cls` (resolved along the MRO, optionally after class `start_after`) on `obj`"""
+    mro = cls.mro()
+    if start_after is not None:
+        mro = mro[mro.index(start_after) + 1:]
+    m = next((k.methods[name] for k in mro if name in k.methods), None)
+    if m is None:
+        raise AnalysisError("absint: no method %s along the MRO of %s" % (name, cls.name))
+    a = m.node.args
+    params = [x.arg for x in a.posonlyargs + a.args]
+    if a.vararg or a.kwarg or len(args) + 1 > len(params):
+        raise AnalysisError("absint: cannot bind the arguments of %s" % m.qualname)
+    env = {params[0]: obj, "__class__": m.cls}
+    defaults = dict(zip(params[len(params) - len(a.defaults):], a.defaults))
+    for i, p_ in enumerate(params[1:]):
+        if i < len(args):
+            env[p_] = args[i]
+        elif p_ in defaults:
+            env[p_] = _eval(defaults[p_], {}, hooks)
+        else:
+            raise AnalysisError("absint: missing argument %s of %s" % (p_, m.qualname))
+    _DEPTH[0] += 1
+    try:
+        if _DEPTH[0] > 25:
+            raise AnalysisError("absint: call depth exceeded in %s" % m.qualname)
+        return run(m.node, env, hooks)
+    finally:
+        _DEPTH[0] -= 1
 
 
 class _Return(Exception):
@@ -121,9 +165,13 @@ def _eval(e, env, hooks):
         return tuple(_eval(x, env, hooks) for x in e.elts)
     if isinstance(e, ast.List):
         return [_eval(x, env, hooks) for x in e.elts]
+    if isinstance(e, ast.Dict) and all(k is not None for k in e.keys):
+        return {_eval(k, env, hooks): _eval(v, env, hooks) for k, v in zip(e.keys, e.values)}
     if isinstance(e, ast.BinOp) and isinstance(e.op, ast.Add):
         a, b = _eval(e.left, env, hooks), _eval(e.right, env, hooks)
         if isinstance(a, list) and isinstance(b, list):
+            return a + b
+        if isinstance(a, str) and isinstance(b, str):
             return a + b
         raise AnalysisError("absint: unsupported + on %r, %r" % (a, b))
     if isinstance(e, ast.IfExp):
@@ -159,6 +207,36 @@ def _eval(e, env, hooks):
             return a in b
         if isinstance(op, ast.NotIn):
             return a not in b
+    if isinstance(e, (ast.GeneratorExp, ast.ListComp)) and len(e.generators) == 1:
+        g = e.generators[0]
+        seq = _eval(g.iter, env, hooks)
+        if not isinstance(seq, (list, tuple)):
+            raise AnalysisError("absint: comprehension over a non-concrete sequence `%s`" % src(g.iter))
+        out = []
+        for item in seq:
+            env2 = dict(env)
+            _bind(g.target, item, env2)
+            if all(_truth(_eval(c, env2, hooks), c) for c in g.ifs):
+                out.append(_eval(e.elt, env2, hooks))
+        return out
+    if isinstance(e, ast.Call) and isinstance(e.func, ast.Name) and e.func.id in ("any", "all", "bool", "len", "list",
+                                                                                   "tuple", "enumerate", "zip") \
+            and e.func.id not in env and (src(e.func) + "()") not in hooks and src(e) not in hooks and not e.keywords:
+        args = [_eval(a, env, hooks) for a in e.args]
+        if all(isinstance(a, (list, tuple)) for a in args) or e.func.id == "bool":
+            if e.func.id == "bool" and len(args) == 1:
+                return _truth(args[0], e)
+            if e.func.id in ("any", "all") and len(args) == 1:
+                return {"any": any, "all": all}[e.func.id](_truth(v, e) for v in args[0])
+            if e.func.id == "len" and len(args) == 1:
+                return len(args[0])
+            if e.func.id in ("list", "tuple") and len(args) == 1:
+                return list(args[0]) if e.func.id == "list" else tuple(args[0])
+            if e.func.id == "enumerate" and len(args) == 1:
+                return [(i, v) for i, v in enumerate(args[0])]
+            if e.func.id == "zip":
+                return [tuple(x) for x in zip(*args)]
+        raise AnalysisError("absint: unsupported call `%s`" % src(e)[:60])
     if isinstance(e, (ast.Attribute, ast.Call, ast.Subscript)):
         key = src(e)
         if key in hooks:
@@ -172,16 +250,55 @@ def _eval(e, env, hooks):
                 base = None
             if isinstance(base, AObj):
                 if e.attr not in base.attrs:
+                    k = getattr(base, "cls", None)
+                    c = k.lookup_const(e.attr) if k is not None else None
+                    if c is not None:
+                        return _eval(c, {}, hooks)
                     raise AnalysisError("absint: abstract object %r has no attribute %s" % (base, e.attr))
                 return base.attrs[e.attr]
+        if isinstance(e, ast.Subscript):
+            try:
+                base = _eval(e.value, env, hooks)
+                idx = _eval(e.slice, env, hooks)
+            except AnalysisError:
+                base = idx = None
+            if isinstance(base, (list, tuple)) and isinstance(idx, int) and not isinstance(idx, bool) and \
+                    -len(base) <= idx < len(base):
+                return base[idx]
+            if isinstance(base, dict) and isinstance(idx, (str, int)) and idx in base:
+                return base[idx]
+        if isinstance(e, ast.Call) and isinstance(e.func, ast.Name) and e.func.id == "super" and not e.args and \
+                "__class__" in env:
+            me = next((v for v in env.values() if isinstance(v, AObj) and getattr(v, "cls", None) is not None), None)
+            if me is not None:
+                return _Super(me, env["__class__"])
+        if isinstance(e, ast.Call) and isinstance(e.func, ast.Name) and e.func.id == "str" and len(e.args) == 1 and \
+                not e.keywords:
+            v = _eval(e.args[0], env, hooks)
+            if isinstance(v, (str, int, bool)) or v is None:
+                return str(v)
+            raise AnalysisError("absint: str() of an abstract value `%s`" % src(e))
         if isinstance(e, ast.Call) and isinstance(e.func, ast.Attribute):
             try:
                 base = _eval(e.func.value, env, hooks)
             except AnalysisError:
                 base = None
+            if isinstance(base, _Super):
+                return call_method(base.obj, base.obj.cls, e.func.attr, [_eval(a, env, hooks) for a in e.args], hooks,
+                                   start_after=base.after)
+            if isinstance(base, str) and e.func.attr in _PURE_STR and not e.keywords:
+                args = [_eval(a, env, hooks) for a in e.args]
+                if all(isinstance(a, (str, int, tuple, list)) for a in args):
+                    return getattr(base, e.func.attr)(*args)
+            if isinstance(base, dict) and e.func.attr == "get" and 1 <= len(e.args) <= 2 and not e.keywords:
+                args = [_eval(a, env, hooks) for a in e.args]
+                if isinstance(args[0], (str, int)):
+                    return base.get(*args)
             if isinstance(base, AObj):
                 m = base.attrs.get(e.func.attr)
                 if not callable(m):
+                    if getattr(base, "cls", None) is not None and base.cls.lookup(e.func.attr) is not None:
+                        return call_method(base, base.cls, e.func.attr, [_eval(a, env, hooks) for a in e.args], hooks)
                     raise AnalysisError("absint: abstract object %r has no method %s" % (base, e.func.attr))
                 return m(*[_eval(a, env, hooks) for a in e.args])
         if isinstance(e, ast.Call):
